@@ -18,8 +18,25 @@ ValS = z3.DeclareSort("Val")        # metadata attribute value
 _fresh = itertools.count()
 
 
+_record = None   # when a list, every fresh constant is appended (used to Skolemise comprehension-local values)
+
+
 def fresh(name, sort):
-    return z3.Const(f"{name}!{next(_fresh)}", sort)
+    c = z3.Const(f"{name}!{next(_fresh)}", sort)
+    if _record is not None:
+        _record.append(c)
+    return c
+
+
+def type_facts(v):
+    """Facts every value of this type satisfies."""
+    if isinstance(v.ty, Seq):
+        return [v.len >= 0]
+    if isinstance(v.ty, Opt):
+        return type_facts(v.val)
+    if isinstance(v.ty, Obj):
+        return [f for x in v.fields.values() for f in type_facts(x)]
+    return []
 
 
 class Ty:
